@@ -4,6 +4,8 @@ Averager: 1-3 threads (own Cache objects / one shared Cache / FanoutCache) runni
 add/get/pop under the deterministic scheduler (timeout 0), enumerated and random schedules, on four cache
 configurations (default; statistics=True, least-recently-used, least-frequently-used: there a lookup needs the write
 lock, so Averager.get meets the locks held by add/pop -- `avg_contention` calls it at every point of three adds)
+-- and 'files' (disk_min_file_size=0: the (total, count) pair lives in a value file that every add replaces; `avg_file_overlap`
+places the row read of a lock-free get at every point of two adds of another client, after an add of its own has completed) --
 and three classes of values (distinct +-2^i; small integers with zeros and cancelling values; the same over binary
 fractions), see VALUE_CLASSES.
 MONITOR (no model): (1) reports -- there must be an order of the calls, consistent with their real-time order
@@ -23,6 +25,9 @@ exact; a second family places arrivals at (next token due) - eps for eps from 0 
 (`thr_boundary`, `thr_gen_fine`), alone, followed by immediate calls, and with several callers at the same instant.  MONITOR: sliding window over the timestamps at which the wrapped function starts:
 #starts in [t_i, t_j] <= count + rate*(t_j - t_i) for all i <= j (exact fractions; observed slack
 reported); every call starts exactly once; a lone caller sleeps at most once per call.
+Several throttled functions on ONE cache (`thr_multi_special`, `thr_multi_gen`; monitors only): two or three functions, each with its own
+(count, seconds), decorated without name= -- same bare name in different classes / enclosing functions / at module level, or different
+names -- called by 2-4 callers; the starts of each function are judged against ITS OWN count + rate*W.
 CORRESPONDENCE: the sequence of (caller, clock reading) of the transact blocks -> check_throttle:
 per-attempt outcome (start / sleep delay) and the final stored (last, tally) must agree exactly.
 """
@@ -41,7 +46,7 @@ from props.c15 import add_dis
 ID = 'C20'
 COQ_PROP = 'C20'
 LEVEL = 'proof'
-TRANSLATE = ['recipes', 'sql', 'disk']
+TRANSLATE = ['recipes', 'sql', 'disk', 'argskey']      # argskey: full_name, from which throttle derives its bucket key when no name= is given
 TRUSTED = [
     'atomic layer: Averager.add (one transact block), Averager.pop (one atomic Cache.pop) and Averager.get (one lock-free read; with statistics=True or the least-recently-used / least-frequently-used policy one write transaction, placed at its COMMIT) are single steps of model/Recipes.v (C05/C06 assumed)',
     'Averager report monitor: real-time order of two calls is read off the scheduler (a call is invoked when its client\'s previous call has returned, and has returned once its last event was granted; one client runs between two grants); added values are integers or multiples of 1/4 of magnitude at most 2^8, at most 9 per run, so every total is exact in binary64 in any order and total/count is the same single division in the implementation and in the monitor',
@@ -53,6 +58,8 @@ TRUSTED = [
 ASSUMPTIONS = [
     'the averager / throttle key is touched by nobody else, has no ttl and is not evicted',
     'each cache operation and each transact block is atomic and isolated (properties C05/C06)',
+    'throttle with several functions: the functions are defined in one module (static methods of different classes, functions nested in different functions, '
+    'module-level functions), are different functions, and are throttled without name= on the same cache; two wrappers of the SAME function (two callers) share its bucket',
     'throttle: count >= 1, seconds > 0, clock readings of successive transact blocks never decrease; a start is timestamped with the clock reading of the block that admitted it (the harness lets no time pass between admission and start)',
     '"every call is eventually let through": proved for a lone caller (after at most one sleep of the computed delay); under contention it needs a fair scheduler and is not claimed',
     'Averager totals are integers in the model (runs that add integers -- including zeros and values that cancel -- are compared with it; binary64 sums of them are exact); the reported mean is compared as the correctly rounded quotient; runs that add binary fractions are decided by the monitors only',
@@ -70,6 +77,9 @@ CONFIGS = {
     'statistics': {'statistics': True},
     'lru': {'eviction_policy': 'least-recently-used'},
     'lfu': {'eviction_policy': 'least-frequently-used'},
+    # every pickled value -- the (total, count) pair of the Averager -- is kept in a value FILE: each add writes a new file and removes the
+    # old one after its COMMIT, and the lock-free Averager.get opens the file named by the row it has just read
+    'files': {'disk_min_file_size': 0},
 }
 
 
@@ -140,6 +150,17 @@ def avg_steps(out, n, case_config='default'):
             raise base.Shape('client %d produced no record (%s)' % (cid, out['errors'][cid]))
         for op, e0, e1, res in rec:
             evs = per[cid][e0:e1]
+            if case_config == 'files':
+                # value files: the lock-free lookup is a SELECT and the opening of the file the row names, repeated when that file has
+                # been replaced meanwhile; what it returns is the committed state at its LAST SELECT (files are written once).  In the
+                # transactions of add / pop only the SQL events matter for the atomic order.
+                if op == 'get':
+                    sel = [e for e in evs if e[1] == 'sql:SELECT']
+                    if not sel or not all(e[1] == 'sql:SELECT' or e[1].startswith('file:') for e in evs):
+                        raise base.Shape('Averager.get on value files with events %r' % [e[1] for e in evs])
+                    steps.append((sel[-1][0], cid, 'get', res))
+                    continue
+                evs = [e for e in evs if e[1].startswith('sql:')]
             if op == 'get' and [e[1] for e in evs] == ['sql:SELECT']:
                 steps.append((evs[0][0], cid, 'get', res))           # the lock-free lookup of the default configuration
                 continue
@@ -485,6 +506,39 @@ def avg_contention(step=1):
     return cs
 
 
+def avg_file_overlap(ctx, step=1):
+    """directed, value files (configuration 'files'): client 1 adds a value and then looks the mean up twice; client 0 adds two more
+    values.  Client 1 is first granted exactly the events of its add (counted in a dry run of the same programs), so that its first
+    lookup is called AFTER an add has completed; then client 0 is granted m events, then client 1 ONE (the SELECT of its lock-free
+    lookup), then client 0 runs on for 70 events (to the end of its program: the add under way commits and removes the file the lookup
+    has just been pointed to), then round-robin -- for every m, so that the lookup's row read falls at every point of both adds.
+    The lookup reports the mean before or after the overlapping adds, never None."""
+    cs = []
+    progs = [[['add', 2], ['add', 4]], [['add', 1], 'get', 'get']]
+    for variant, shards, upto, st in (('own', 1, 34, 1), ('shared', 1, 34, 2), ('fanout', 1, 34, 2), ('fanout', 3, 44, 1), ('fanout-own', 3, 44, 2)):
+        case = {'check': 'averager', 'variant': variant, 'shards': shards, 'config': 'files', 'values': 'pow2', 'progs': progs,
+                'schedule': [1] * 200, 'family': 'file-overlap'}
+        d = ctx.scratch('c20f')
+        try:
+            out = avg_execute(case, d)
+        finally:
+            shutil.rmtree(d, ignore_errors=True)
+        if out['overflow'] or any(out['errors']) or not out['records'][1]:
+            cs.append(case)         # (the monitors report what went wrong)
+            continue
+        own = out['records'][1][0][2]           # number of events of client 1 when its add returned
+        for m in range(0, upto, st * step):
+            cs.append(dict(case, schedule=[1] * own + [0] * m + [1] + [0] * 70))
+    return cs
+
+
+def avg_file_gen(ctx, n):
+    """random programs and schedules (avg_gen) on the value-file configuration, from a generator of their own"""
+    import random
+    rng = random.Random(ctx.seed * 7919 + 41)
+    return [avg_gen(rng, config='files') for _ in range(n)]
+
+
 def avg_enum(L):
     progs = [[['add', 1], ['add', 2], 'get'], [['add', 4], 'pop', ['add', 8]]]
     for bits in itertools.product([0, 1], repeat=L):
@@ -510,6 +564,8 @@ def avg_run(ctx, res, cases, hist, correspond=True):
         for hk, ck, dflt in (('avg_config', 'config', 'default'), ('avg_values', 'values', 'pow2')):
             hist[hk][case.get(ck, dflt)] = hist[hk].get(case.get(ck, dflt), 0) + 1
         for sig, desc in avg_monitor(case, out):
+            if case.get('config') == 'files':
+                sig += ':value-files'
             res.violations.append(fw.Violation(sig, desc, case))
         nadds = sum(1 for p in case['progs'] for op in p if op not in ('get', 'pop'))
         res.count(case, nontrivial=nadds >= 2)
@@ -558,8 +614,37 @@ def avg_run(ctx, res, cases, hist, correspond=True):
 # throttle
 
 
+THROTTLED_MODULE = 'c20_throttled_functions'
+
+
+def thr_define(desc, body):
+    """A real function object for the descriptor {'scope': ['top'] | ['class', C] | ['nested', outer], 'name': f}: a module-level
+    function f, a static method C.f, or a function f defined inside outer() -- all in ONE module, so that only the qualified name tells
+    C1.f from C2.f; `body` is what it does when called."""
+    scope, name = desc['scope'], desc['name']
+    if scope[0] == 'top':
+        src = 'def %s():\n    return BODY()\nF = %s\n' % (name, name)
+    elif scope[0] == 'class':
+        src = 'class %s:\n    @staticmethod\n    def %s():\n        return BODY()\nF = %s.%s\n' % (scope[1], name, scope[1], name)
+    elif scope[0] == 'nested':
+        src = 'def %s():\n    def %s():\n        return BODY()\n    return %s\nF = %s()\n' % (scope[1], name, name, scope[1])
+    else:
+        raise ValueError(scope)
+    ns = {'__name__': THROTTLED_MODULE, 'BODY': body}
+    exec(compile(src, '<%s>' % THROTTLED_MODULE, 'exec'), ns)       # noqa: S102 (source text written above)
+    return ns['F']
+
+
+def thr_label(desc):
+    return '.'.join(([] if desc['scope'][0] == 'top' else [desc['scope'][1]] + (['<locals>'] if desc['scope'][0] == 'nested' else [])) + [desc['name']])
+
+
 def thr_execute(case, d, max_steps=20000):
-    count, seconds, gaps = case['count'], case['seconds'], case['gaps']
+    """case['funcs'] (optional): several throttled functions on ONE cache, each with its own (count, seconds), decorated WITHOUT name=
+    (the bucket key is derived from the function); caller i calls function case['who'][i].  Otherwise one function, name=KEY."""
+    gaps = case['gaps']
+    descs = case.get('funcs')
+    count, seconds = (case['count'], case['seconds']) if descs is None else (None, None)
     n = len(gaps)
     t0 = 1000.0
     clock = instr.Clock(t0)
@@ -595,12 +680,18 @@ def thr_execute(case, d, max_steps=20000):
                     frozen[0] -= 1
                     vsleep(dl)
 
-                @diskcache.throttle(caches[i], count, seconds, name=KEY, time_func=time_func, sleep_func=sleep_func)
-                def f():
+                def body():
                     outcomes[i].append(('start', clock.now))
                     starts.append((i, clock.now))
                     frozen[0] -= 1
                     return 'ran'
+                if descs is not None:
+                    desc = descs[case['who'][i]]
+                    return diskcache.throttle(caches[i], desc['count'], desc['seconds'], time_func=time_func, sleep_func=sleep_func)(thr_define(desc, body))
+
+                @diskcache.throttle(caches[i], count, seconds, name=KEY, time_func=time_func, sleep_func=sleep_func)
+                def f():
+                    return body()
                 return f
             funcs.append(mk(i))
         running[0] = True
@@ -624,6 +715,8 @@ def thr_execute(case, d, max_steps=20000):
 
 
 def thr_monitor(case, out):
+    if case.get('funcs') is not None:
+        return thr_multi_monitor(case, out)
     bad = []
     count, seconds, gaps = case['count'], case['seconds'], case['gaps']
     if out['overflow']:
@@ -656,6 +749,101 @@ def thr_monitor(case, out):
                 bad.append(('lone-caller-slept-twice', 'a lone caller slept twice before being let through'))
                 break
     return bad, slack
+
+
+def thr_multi_monitor(case, out):
+    """several throttled functions on one cache: the starts of EACH function, over all its callers, obey that function's own
+    count + rate*W; every call starts exactly once"""
+    bad = []
+    descs, who, gaps = case['funcs'], case['who'], case['gaps']
+    if out['overflow']:
+        return [('no-progress', 'throttled callers did not finish: a call was never let through')], None
+    for i, e in enumerate(out['errors']):
+        if e is not None:
+            bad.append(('client-error', 'caller %d raised %s' % (i, e)))
+    if bad:
+        return bad, None
+    slack = None
+    for fi, desc in enumerate(descs):
+        count = desc['count']
+        rate = Fraction(count) / Fraction(desc['seconds'])
+        ts = sorted(Fraction(t) for c, t in out['starts'] if who[c] == fi)
+        found = False
+        for i in range(len(ts)):
+            for j in range(i, len(ts)):
+                sl = Fraction(count) + rate * (ts[j] - ts[i]) - (j - i + 1)
+                if slack is None or sl < slack:
+                    slack = sl
+                if sl < 0 and not found:
+                    found = True
+                    others = ['%s at %d per %s s' % (thr_label(o), o['count'], o['seconds']) for k, o in enumerate(descs) if k != fi]
+                    bad.append(('rate-exceeded:several-functions', '%s is throttled at %d per %s s; %d of its starts within %s s (from t=%s) exceed count + rate*W = %s; the same '
+                                'cache also throttles %s (callers -> function: %r; starts (caller, t): %r)' % (
+                                    thr_label(desc), count, desc['seconds'], j - i + 1, float(ts[j] - ts[i]), float(ts[i] - Fraction(out['t0'])),
+                                    float(Fraction(count) + rate * (ts[j] - ts[i])), ', '.join(others), who, [(c, t - out['t0']) for c, t in out['starts']][:24])))
+    for i in range(len(gaps)):
+        nst = sum(1 for c, _ in out['starts'] if c == i)
+        if nst != len(gaps[i]) or out['results'][i] != ['ran'] * len(gaps[i]):
+            bad.append(('call-lost:several-functions', 'caller %d made %d calls of %s, the function started %d times' % (i, len(gaps[i]), thr_label(descs[who[i]]), nst)))
+    return bad, slack
+
+
+SAME_NAME_SCOPES = [[['class', 'Billing'], ['class', 'Search'], ['class', 'Audit']], [['nested', 'make_reader'], ['nested', 'make_writer'], ['nested', 'make_probe']],
+                    [['class', 'Billing'], ['top'], ['nested', 'make_reader']]]
+
+
+def thr_multi_case(scopes, names, rates, who, gaps, variant='shared', shards=1, schedule=()):
+    funcs = [{'scope': sc, 'name': nm, 'count': c, 'seconds': sec} for sc, nm, (c, sec) in zip(scopes, names, rates)]
+    return {'check': 'throttle', 'family': 'several-functions', 'funcs': funcs, 'who': list(who), 'gaps': [list(g) for g in gaps],
+            'variant': variant, 'shards': shards, 'schedule': list(schedule)}
+
+
+def thr_multi_special():
+    """directed: a strict and a generous function (and a third, in between) on one cache -- same bare name in different classes /
+    enclosing functions / one of them at module level, and different names as a control; the generous one is called steadily, the
+    strict one in bursts and right after the generous one"""
+    cs = []
+    strict, generous, medium = (1, 8.0), (4, 1.0), (2, 2.0)
+    for k, scopes in enumerate(SAME_NAME_SCOPES):
+        for names in (['fetch'] * 3, ['fetch', 'lookup', 'probe']):
+            for variant, shards in (('shared', 1), ('own', 1), ('fanout', 3)):
+                if (k + shards + len(set(names))) % 2 and variant != 'shared':
+                    continue
+                # caller 0: the strict function, a burst of three; caller 1: the generous one, every half second
+                cs.append(thr_multi_case(scopes[:2], names[:2], [strict, generous], [0, 1], [[0, 0, 0], [0.5] * 6], variant, shards))
+                # the other order of decoration (the strict one decorated last)
+                cs.append(thr_multi_case(scopes[:2], names[:2], [generous, strict], [0, 1], [[0.5] * 6, [0, 0, 0]], variant, shards))
+                # one caller alternating is two callers in lock step: strict right after each generous call
+                cs.append(thr_multi_case(scopes[:2], names[:2], [strict, generous], [0, 1], [[0.5, 0.5, 0.5, 0.5], [0.5, 0.5, 0.5, 0.5]], variant, shards,
+                                         schedule=[1] * 12 + [0] * 12))
+                # three functions, three callers (and a fourth caller sharing the strict one)
+                cs.append(thr_multi_case(scopes, names, [strict, generous, medium], [0, 1, 2, 0], [[0, 0], [0.25] * 8, [0, 1, 0, 1], [0.5, 0.5]], variant, shards))
+    return cs
+
+
+def thr_multi_gen(ctx, n):
+    import random
+    rng = random.Random(ctx.seed * 7919 + 43)
+    cs = []
+    for _ in range(n):
+        k = rng.choice([2, 2, 3])
+        scopes = rng.choice(SAME_NAME_SCOPES)[:]
+        rng.shuffle(scopes)
+        names = ['fetch'] * k if rng.random() < 0.7 else rng.sample(['fetch', 'lookup', 'probe', 'run'], k)
+        rates = []
+        for j in range(k):
+            count = rng.choice([1, 1, 2, 3, 4])
+            rates.append((count, count * 2.0 ** rng.choice([-2, -1, 0, 1, 2, 3])))
+        ncallers = rng.choice([k, k, k + 1])
+        who = list(range(k)) + [rng.randrange(k) for _ in range(ncallers - k)]
+        gaps = [[rng.choice([0, 0, 0, 0.125, 0.25, 0.5, 0.5, 1, 2, 4]) for _ in range(rng.choice([2, 3, 4, 6]))] for _ in who]
+        variant = rng.choice(['own', 'shared', 'shared', 'fanout'])
+        L = rng.choice([0, 10, 40])
+        schedule = []
+        while len(schedule) < L:
+            schedule += [rng.randrange(ncallers)] * rng.choice([1, 2, 4, 8])
+        cs.append(thr_multi_case(scopes[:k], names, rates, who, gaps, variant, rng.choice([1, 3]) if variant == 'fanout' else 1, schedule[:L]))
+    return cs
 
 
 def q(x):
@@ -779,6 +967,9 @@ def thr_run(ctx, res, cases, hist, correspond=True):
                 sig += ':token-boundary-arrivals'
             res.violations.append(fw.Violation(sig, desc, case))
         n = len(case['gaps'])
+        multi = case.get('funcs') is not None
+        if multi:
+            hist['thr_several_functions'] = hist.get('thr_several_functions', 0) + 1
         hist['thr_callers'][n] = hist['thr_callers'].get(n, 0) + 1
         if case.get('family') == 'boundary':
             hist['thr_boundary_cases'] = hist.get('thr_boundary_cases', 0) + 1
@@ -787,7 +978,7 @@ def thr_run(ctx, res, cases, hist, correspond=True):
             if not out['overflow'] and not any(out['errors']) and not on_tick_grid(out):
                 hist['thr_off_grid'] = hist.get('thr_off_grid', 0) + 1
         ncalls = sum(len(g) for g in case['gaps'])
-        res.count(case, nontrivial=ncalls > case['count'])
+        res.count(case, nontrivial=ncalls > (min(f['count'] for f in case['funcs']) if multi else case['count']))
         if slack is not None:
             hist['thr_min_slack'] = slack if hist['thr_min_slack'] is None else min(hist['thr_min_slack'], slack)
             if slack == 0:
@@ -797,7 +988,7 @@ def thr_run(ctx, res, cases, hist, correspond=True):
         nsleeps = sum(1 for o in out['outcomes'] for kind, v in o if kind == 'sleep')
         hist['thr_runs_with_sleep'] += 1 if nsleeps else 0
         hist['thr_attempts'] += len(out['attempts'])
-        if correspond:
+        if correspond and not multi:            # (the model has one bucket: runs with several functions are decided by the monitors)
             try:
                 checks.append(thr_check(case, out))
                 info.append((case, out))
@@ -853,6 +1044,7 @@ def finish(res, hist):
     res.extra['throttle_runs_with_a_sleep'] = hist['thr_runs_with_sleep']
     res.extra['throttle_attempts_compared'] = hist['thr_attempts']
     res.extra['throttle_boundary_arrival_cases'] = hist.get('thr_boundary_cases', 0)
+    res.extra['throttle_cases_with_several_functions_on_one_cache'] = hist.get('thr_several_functions', 0)
     res.extra['throttle_sleeps_shorter_than_2ms'] = hist.get('thr_sleeps_shorter_than_2ms', 0)
     res.extra['throttle_boundary_cases_off_the_tick_grid'] = hist.get('thr_off_grid', 0)
 
@@ -865,22 +1057,30 @@ def run(ctx):
                 'ALL event-level schedules of a fixed length over two clients plus random bursty schedules, then round-robin; directed contention: three adds '
                 'against two lookups, the first lookup called after m events of the adder for every (quick: every third) m, on the three lock-taking '
                 'configurations x {own, shared, FanoutCache 1 shard, FanoutCache 3 shards shared/own}; sequential histories of a lone client (a get after '
-                'nearly every add) over series that start with zeros, cancel in two and in three steps, before and after a pop; non-trivial = '
-'at least two adds.  throttle: counts 1-5, periods count*2^k (k=-2..2), 1-3 callers with random arrival gaps from '
+                'nearly every add) over series that start with zeros, cancel in two and in three steps, before and after a pop; value files '
+                '(disk_min_file_size=0, the stored pair is a file that every add replaces): a client adds, then looks the mean up while another client adds twice, '
+                'the row read of the lock-free lookup placed after m events of the adder for every (quick: every second) m, on {own, shared, FanoutCache 1 shard, '
+                'FanoutCache 3 shards shared/own}, plus random programs and schedules on that configuration; non-trivial = '
+                'at least two adds.  throttle: counts 1-5, periods count*2^k (k=-2..2), 1-3 callers with random arrival gaps from '
                 '{0, 1/8, 1/4, 1/2, 1, 2, 4} s under a virtual clock and random schedules, plus simultaneous bursts of count+2 calls; '
                 'arrivals at and around token boundaries on a clock of integer ticks of 2^-30 s: the bucket drained by a burst, then 1-3 callers '
                 'arriving at (next token due) - eps for eps in {0, 2^-30, 2^-21, 2^-20, 2^-20+2^-24, 2^-19, 2^-10} s (0, ~1 ns, ~0.5 us, ~0.95 us, '
                 '~1.01 us, ~1.9 us, ~1 ms), followed by immediate calls, by calls eps after the token was taken and by several callers at the same '
-                'instant, plus random patterns with gaps m*period +- eps, 0 and eps; the window bound count + rate*W is decided on exact rationals.  '
+                'instant, plus random patterns with gaps m*period +- eps, 0 and eps; the window bound count + rate*W is decided on exact rationals; '
+                'several functions on one cache (monitors only): 2-3 functions throttled without name= at different rates (directed: 1 per 8 s, 4 per 1 s, 2 per 2 s; random: '
+                'counts 1-4, periods count*2^k, k=-2..3) whose qualified names differ only in the class / enclosing function / module level (same bare name) or whose '
+                'names differ, 2-4 callers (own / shared Cache, FanoutCache) calling them in bursts, steadily and alternately: each function\'s starts obey its own bound.  '
                 'non-trivial = more calls than count.  distinct = distinct case description.')
     hist = base_hist()
     rng = ctx.rng
     L = 8 if ctx.quick else 11
     acases = list(avg_enum(L)) + [avg_gen(rng) for _ in range(200 if ctx.quick else 2000)]
     acases += avg_seq_special() + [avg_seq_gen(rng) for _ in range(40 if ctx.quick else 600)] + avg_contention(3 if ctx.quick else 1)
+    acases += avg_file_overlap(ctx, 2 if ctx.quick else 1) + avg_file_gen(ctx, 60 if ctx.quick else 600)
     avg_run(ctx, res, acases, hist)
     tcases = thr_special() + [thr_gen(rng) for _ in range(250 if ctx.quick else 2500)]
     tcases += thr_boundary() + [thr_gen_fine(rng) for _ in range(60 if ctx.quick else 1200)]
+    tcases += thr_multi_special() + thr_multi_gen(ctx, 60 if ctx.quick else 900)
     thr_run(ctx, res, tcases, hist)
     res.extra['exhaustive'] = False
     res.extra['enumerated_schedule_length'] = L
@@ -891,9 +1091,10 @@ def run(ctx):
 def search(ctx, broken):
     res = fw.Result()
     hist = base_hist()
-    avg_run(ctx, res, avg_seq_special() + avg_contention(2) + list(avg_enum(9)) + [avg_gen(ctx.rng) for _ in range(300)] + [avg_seq_gen(ctx.rng) for _ in range(100)],
-            hist, correspond=False)
-    thr_run(ctx, res, thr_special() + thr_boundary() + [thr_gen(ctx.rng) for _ in range(400)] + [thr_gen_fine(ctx.rng) for _ in range(300)], hist, correspond=False)
+    avg_run(ctx, res, avg_seq_special() + avg_contention(2) + avg_file_overlap(ctx, 1) + list(avg_enum(9)) + [avg_gen(ctx.rng) for _ in range(300)]
+            + [avg_seq_gen(ctx.rng) for _ in range(100)] + avg_file_gen(ctx, 150), hist, correspond=False)
+    thr_run(ctx, res, thr_special() + thr_boundary() + [thr_gen(ctx.rng) for _ in range(400)] + [thr_gen_fine(ctx.rng) for _ in range(300)]
+            + thr_multi_special() + thr_multi_gen(ctx, 200), hist, correspond=False)
     return res
 
 
